@@ -17,6 +17,7 @@ import (
 	"time"
 
 	z "github.com/Oudwins/zog"
+	zi "github.com/Oudwins/zog/internals"
 	"github.com/Oudwins/zog/parsers/zjson"
 	"github.com/Oudwins/zog/zenv"
 	"github.com/Oudwins/zog/zhttp"
@@ -125,6 +126,7 @@ func dynZoo() []any {
 	var nilMap map[string]any
 	var nilNamed dNamedMap
 	var nilSlice []any
+	var nilFactory zi.DpFactory
 	pp := &dInput{Name: "x"}
 	ppp := &pp
 	ch := make(chan int)
@@ -143,6 +145,7 @@ func dynZoo() []any {
 	dur := 3 * time.Second
 	out := []any{
 		// typed nils (and non-nil values) of types with String() / Error() methods, alone and inside records
+		nilFactory, map[string]any{"inner": nilFactory, "ptr": nilFactory, "list": []any{nilFactory}}, // a typed-nil data-provider factory
 		nilTime, nilDur, nilIP, nilStringer, nilErrVal, nilPtrStringer, nilURL, nilBig, &dur, dStringer{"v"}, &dStringer{"p"}, dErrVal{"v"}, &dErrVal{"p"}, &dPtrStringer{"p"},
 		net.IPv4(1, 2, 3, 4), big.NewInt(7), json.Number("12"), json.Number("zz"), []byte("bytes"), url.Values{"name": {"x"}}, errors.New("an error"),
 		map[string]any{"name": nilTime, "when": nilTime, "age": nilDur, "ok": nilStringer, "tags": []any{nilStringer, nilErrVal, nilIP}, "Name": nilPtrStringer, "Ébène": nilErrVal},
@@ -189,7 +192,7 @@ func dynJSONDocs() []string {
 
 func streamDyn(seed uint64, n int) (*Summary, error) {
 	sum := newSummary("dyn", seed)
-	sum.Rule = "zoo of ~100 Go dynamic values (nil and typed nils incl. nil pointers of types with value-receiver String()/Error() methods, pointer chains, named and unnamed maps with every key/element kind, structs with unexported fields and empty tags, channels, functions, NaN/Inf, huge numbers, invalid UTF-8, 200-deep nesting, long strings) and ~35 JSON documents (incl. {}, non-objects, truncated, 500-deep, invalid UTF-8) through Parse / zjson / zenv on matching (schema, destination) pairs incl. a 48-byte schema key, a non-ASCII key and empty tags, plus random mutations of the zoo, each also with every field behind a Preprocess function that hands its input on unchanged; exhaustive over the zoo; non-trivial = every case; distinct = distinct (front end, value)"
+	sum.Rule = "zoo of ~100 Go dynamic values (nil and typed nils incl. nil pointers of types with value-receiver String()/Error() methods, pointer chains, named and unnamed maps with every key/element kind, structs with unexported fields and empty tags, channels, functions, NaN/Inf, huge numbers, invalid UTF-8, 200-deep nesting, long strings) and ~35 JSON documents (incl. {}, non-objects, truncated, 500-deep, invalid UTF-8) through Parse / zjson / zhttp / zenv (incl. ~400 hostile query / form parameter NAMES: schema keys decorated with negative, signed, huge, nested and malformed indexes, dots, brackets) on matching (schema, destination) pairs incl. a 48-byte schema key, a non-ASCII key and empty tags, plus random mutations of the zoo, each also with every field behind a Preprocess function that hands its input on unchanged; exhaustive over the zoo; non-trivial = every case; distinct = distinct (front end, value)"
 	schema := dynSchema()
 	prims := []func(v any) (string, any){
 		func(v any) (string, any) { var d string; return "String", z.String().Required().Min(1).Parse(v, &d) },
@@ -271,6 +274,35 @@ func streamDyn(seed uint64, n int) (*Summary, error) {
 				var d dDest
 				schema.Parse(zhttp.Request(req), &d)
 			})
+		}
+	}
+	// hostile parameter NAMES through the query and form front ends: every schema key with index-like, bracketed,
+	// dotted, empty and very long decorations, alone and next to the plain parameter
+	for _, key := range []string{"name", "age", "tags", "inner", "list", "ok", "when"} {
+		for _, deco := range []string{"[]", "[0]", "[1]", "[-1]", "[-0]", "[+1]", "[00]", "[x]", "[", "]", "[][]", "[0][1]", "[99999999999999999999]", "[1023]", "[1024]", "[ 1]", "[1 ]", "[-9223372036854775808]",
+			".", ".a", "..", "[0].a", "[].a", "%5B0%5D", "[\x00]", "[" + strings.Repeat("9", 400) + "]", ""} {
+			for _, alsoPlain := range []bool{false, true} {
+				q := url.Values{}
+				q.Add(key+deco, "3")
+				q.Add(key+deco, "zz")
+				if alsoPlain {
+					q.Add(key, "1")
+				}
+				enc := q.Encode()
+				guard("zhttp query parameter named "+key+deco, func() {
+					req, _ := http.NewRequest("GET", "http://x/y?"+enc, nil)
+					var d dDest
+					schema.Parse(zhttp.Request(req), &d)
+				})
+				guard("zhttp form parameter named "+key+deco, func() {
+					req, _ := http.NewRequest("POST", "http://x/y", strings.NewReader(enc))
+					req.Header.Set("Content-Type", "application/x-www-form-urlencoded")
+					var d dDest
+					schema.Parse(zhttp.Request(req), &d)
+					var pd *dDest
+					z.Ptr(schema).Parse(zhttp.Request(req), &pd)
+				})
+			}
 		}
 	}
 	// environment
